@@ -1,6 +1,9 @@
 package main
 
 import (
+	opb "verif/harness/internal/orders/pb"
+	upb "verif/harness/internal/users/pb"
+
 	"fmt"
 	"os"
 	"os/exec"
@@ -56,6 +59,14 @@ func c16Violated(key, arg string, v reflect.Value) bool {
 	return false
 }
 
+// the key of a type in cf.typed: its name, qualified by the package path when it is not declared in package main
+func c16Key(t reflect.Type) string {
+	if t.PkgPath() != "" && t.PkgPath() != "main" {
+		return t.PkgPath() + "." + t.Name()
+	}
+	return t.Name()
+}
+
 func (cf *c16cfg) effective(tagRule, typeName, field string, outermost bool) string {
 	cus := cf.typed[typeName]
 	if outermost && len(cus) == 0 && cf.hasUnsc {
@@ -95,7 +106,7 @@ func (cf *c16cfg) expectStruct(v reflect.Value, structName string, outermost boo
 		if f.PkgPath != "" || f.Type == timeType {
 			continue
 		}
-		rules := cf.effective(f.Tag.Get("valid"), t.Name(), f.Name, outermost)
+		rules := cf.effective(f.Tag.Get("valid"), c16Key(t), f.Name, outermost)
 		if rules == "" {
 			continue
 		}
@@ -222,7 +233,7 @@ func runC16(c *Ctx) error {
 		cf := &c16cfg{typed: map[string]map[string]string{}, global: globals, local: map[string]string{}}
 		call := &walkCall{Entry: "struct", Global: globals}
 		feat := []string{}
-		for _, tn := range []string{"WLeaf", "WMid", "WTop"} {
+		for _, tn := range []string{"WLeaf", "WMid", "WTop", "WNode", "verif/harness/internal/orders/pb.Item", "verif/harness/internal/users/pb.Item"} {
 			switch r.Intn(4) {
 			case 0: // not registered
 			case 1: // registered, empty
@@ -262,6 +273,12 @@ func runC16(c *Ctx) error {
 			switch tn {
 			case "WLeaf":
 				obj = &WLeaf{}
+			case "WNode":
+				obj = &WNode{}
+			case "verif/harness/internal/orders/pb.Item":
+				obj = &opb.Item{}
+			case "verif/harness/internal/users/pb.Item":
+				obj = upb.Item{}
 			case "WMid":
 				obj = WMid{}
 			default:
@@ -304,8 +321,18 @@ func runC16(c *Ctx) error {
 		// the input: the outermost struct, or a pointer to it, or (no outermost struct) a slice of it
 		top := wtop()
 		var exps []expE
-		shape := r.Intn(5)
+		shape := r.Intn(9)
 		switch shape {
+		case 7, 8: // two different types that print the same name: a typed rule set belongs to one of them only
+			tw := wtwo()
+			call.Src = &tw
+			exps = cf.expectStruct(reflect.ValueOf(tw), "", true)
+			feat = append(feat, "same-name-types")
+		case 5, 6: // a self-referential type: only the outermost object may take the unscoped rule set
+			nd := wnode()
+			call.Src = &nd
+			exps = cf.expectStruct(reflect.ValueOf(nd), "", true)
+			feat = append(feat, "top-node")
 		case 0:
 			call.Src = top
 			exps = cf.expectStruct(reflect.ValueOf(top), "", true)
